@@ -184,6 +184,14 @@ def construction(ctx, rep, r1, r2, r3, r4, r5):
                           "IndexError when the requirement is an empty Sequence", trace(e.st))
     muts = [e for e in an.events('MUT') if e.data['attr'] == 'required' and e.data['obj'] == T.SELF]
     rep.need(r3, len(muts), 2, "stores into self.required")
+    # requirements go in (and out) one by one, each through the dispatch on what it is: a whole collection merged
+    # into `self.required` skips it (None, sequences, nested collections land there as they are)
+    for e in an.events('STORE'):
+        if e.data['attr'] == 'required' and e.data['obj'] == T.SELF:
+            rep.fail(r3, "%s requirements are added one by one" % e.where, fn,
+                     "`%s` merges a collection into self.required as it is" % src(stmt_of(e.node)),
+                     "what the collection holds besides jobs (None, a Sequence, a nested tuple) becomes a requirement: "
+                     "not `flattens nested collections, ignores None, a sequence stands for its last job`", trace(e.st))
     branches = {}
     for e in muts:
         rm = e.st.facts.get(REMOVE)
@@ -220,6 +228,15 @@ def construction(ctx, rep, r1, r2, r3, r4, r5):
                 rep.check(ident, r4, site + " never makes a job require itself", fn,
                           "requirement added without the `is not self` test", "a job can require itself: the "
                           "scheduler deadlocks / check_cycles fails", trace(e.st))
+            if how == 'remove':
+                # removing is not filtered: a requirement that is not there - the job itself, say - is a KeyError
+                filt = [(k, v) for k, v in e.st.facts.items()
+                        if k[0] == 'cmp' and k[1] in ('is', 'is not', '==', '!=') and T.SELF in (k[2], k[3])
+                        and arg in (k[2], k[3])]
+                rep.check(not filt, r3, site + " removes whatever is named", fn,
+                          "requirement removed only when %s" % [(T.show(k, 3), v) for k, v in filt],
+                          "requires(x, remove=True) with x the job itself returns silently instead of raising KeyError: "
+                          "not `exactly the named requirements (KeyError if absent)`", trace(e.st))
             if br.endswith(seq.name) and how in ('add', 'remove'):
                 ok = arg[0] == 'sub' and T.is_attr(arg[1], 'jobs') and arg[2] == ('const', -1)
                 rep.check(ok, r4, site + " a sequence stands for its last job", fn,
@@ -301,6 +318,14 @@ def construction(ctx, rep, r1, r2, r3, r4, r5):
         prm = add.params[1]
         ok = any(e.data['meth'] == 'update' and e.data['recv'] == T.SELF and e.data['args'] and
                  T.contains(e.data['args'][0], T.mk(('var', prm))) for e in an.events('CALL'))
+        if not ok:
+            # ... or does itself what update() does: flatten, then add to the member set
+            m_ = [e for e in an.events('MUT') if e.data['attr'] == 'jobs' and e.data['obj'] == T.SELF]
+            fl_ = _flatteners(ctx, seq)
+            ok = any(e.data['how'] in ('update', 'add') and e.data['args'] and T.contains(e.data['args'][0], T.mk(('var', prm)))
+                     for e in m_) and (any(q in fl_ for q in ip.inlined) or any(
+                         x[0] in ('call', 'gen') and isinstance(x[1], str) and any(_last(q) == _last(x[1]) for q in fl_)
+                         for e in m_ for a in e.data['args'] for x in T.subterms(a)))
         rep.check(ok, r5, "%s goes through update()" % add.qualname, add.qualname, "no `self.update([job])`",
                   "add() of a Sequence does not flatten it into the member set")
     if upd is not None:
@@ -309,10 +334,83 @@ def construction(ctx, rep, r1, r2, r3, r4, r5):
         m = [e for e in an.events('MUT') if e.data['attr'] == 'jobs' and e.data['obj'] == T.SELF]
         ok = any(e.data['how'] == 'update' and e.data['args'] and T.contains(e.data['args'][0], T.mk(('var', prm)))
                  for e in m)
-        flat = any(q.endswith('_flatten') or 'flatten' in q for q in ip.inlined)
+        fl = _flatteners(ctx, seq)
+        flat = any(q in fl for q in ip.inlined) or any(
+            x[0] in ('call', 'gen') and isinstance(x[1], str) and any(_last(q) == _last(x[1]) for q in fl)
+            for e in m for a in e.data['args'] for x in T.subterms(a))
         rep.check(ok and flat, r5, "%s flattens and adds to the member set" % upd.qualname, upd.qualname,
                   "member-set updates: %s, flatten used: %s" % ([(e.data['how'], [T.show(a, 2)[:40] for a in e.data['args']]) for e in m], flat),
                   "update() does not register every job of the sequences it is given")
+
+
+def _last(q):
+    import re
+    return re.split('[.:]', q)[-1]
+
+
+def _flatteners(ctx, seq):
+    """qualnames of the functions that flatten job-likes: a loop over a parameter that takes the `jobs` of the elements
+    recognised as sequences - and the functions that just return what one of those makes of their own parameter"""
+    out = {}
+    funcs = list(ctx.prog.all_functions())
+
+    def seq_test(n, el):
+        return isinstance(n, ast.Call) and dotted(n.func) == 'isinstance' and len(n.args) == 2 \
+            and isinstance(n.args[0], ast.Name) and n.args[0].id == el \
+            and any((dotted(k) or '').split('.')[-1] == seq.name
+                    for k in (n.args[1].elts if isinstance(n.args[1], ast.Tuple) else [n.args[1]]))
+    # what is done with one job-like may live in a helper (`_expand(x)`: x.jobs for a sequence, [x] for a job)
+    per_elem = set()
+    for f in funcs:
+        for p_ in f.params:
+            if any(seq_test(n, p_) for n in walk_local(f.node)) and any(
+                    isinstance(n, ast.Attribute) and n.attr == 'jobs' and isinstance(n.value, ast.Name)
+                    and n.value.id == p_ for n in walk_local(f.node)):
+                per_elem.add(f.name)
+    for f in funcs:
+        # a loop or a comprehension over a parameter, each element handed to such a helper
+        for n in walk_local(f.node):
+            gens = [(n.target, n.iter, n.body)] if isinstance(n, ast.For) else \
+                [(g.target, g.iter, [n]) for g in n.generators] if isinstance(
+                    n, (ast.ListComp, ast.SetComp, ast.GeneratorExp)) else []
+            for tgt, it, body in gens:
+                if isinstance(it, ast.Name) and it.id in f.params and isinstance(tgt, ast.Name) and any(
+                        isinstance(c, ast.Call) and (dotted(c.func) or '').split('.')[-1] in per_elem
+                        and any(isinstance(a, ast.Name) and a.id == tgt.id for a in c.args)
+                        for b in body for c in ast.walk(b)):
+                    out[f.qualname] = f
+        for lp in walk_local(f.node):
+            if isinstance(lp, ast.For) and isinstance(lp.iter, ast.Name) and lp.iter.id in f.params \
+                    and isinstance(lp.target, ast.Name):
+                el = lp.target.id
+                isi = any(seq_test(n, el) or (
+                    isinstance(n, ast.Match) and isinstance(n.subject, ast.Name) and n.subject.id == el and any(
+                        isinstance(pt, ast.MatchClass) and (dotted(pt.cls) or '').split('.')[-1] == seq.name
+                        for c_ in n.cases for pt in ast.walk(c_.pattern)))
+                    for b in lp.body for n in ast.walk(b))
+                takes = any(isinstance(n, ast.Attribute) and n.attr == 'jobs' and isinstance(n.value, ast.Name)
+                            and n.value.id == el for b in lp.body for n in ast.walk(b))
+                if isi and takes:
+                    out[f.qualname] = f
+    changed = True
+    while changed:
+        changed = False
+        for f in funcs:
+            if f.qualname in out:
+                continue
+            rets = [n for n in walk_local(f.node) if isinstance(n, ast.Return)]
+            v = rets[0].value if len(rets) == 1 else None
+            # (`return list(flat(x))`: a collection made of what the flattener gives is that, in order)
+            while isinstance(v, ast.Call) and isinstance(v.func, ast.Name) and v.func.id in ('list', 'tuple', 'set', 'BestSet') \
+                    and len(v.args) == 1 and isinstance(v.args[0], ast.Call):
+                v = v.args[0]
+            if isinstance(v, ast.Call) and len(v.args) == 1 \
+                    and isinstance(v.args[0], ast.Name) and v.args[0].id in f.params:
+                name = (dotted(v.func) or '').split('.')[-1]
+                if any(_last(q) == name for q in out):
+                    out[f.qualname] = f
+                    changed = True
+    return set(out)
 
 
 # ======================================================= who may write the requirement relation
@@ -408,6 +506,10 @@ def relation_writers(ctx, rep, rule):
         if (helper_cls or (f.name.startswith('_') and not f.name.startswith('__'))) and f.qualname not in seen:
             # (a private helper, or a method of a private helper class)
             cs = callers.get(f.qualname, set())
+            if not cs and not any((isinstance(n, ast.Attribute) and n.attr == f.name) or
+                                  (isinstance(n, ast.Constant) and n.value == f.name)
+                                  for g in p.funcs.values() for n in walk_local(g.node)):
+                return True         # nothing in the package mentions it: nobody reaches this write
             return bool(cs) and all(ok_func(p.funcs[c], seen + (f.qualname,)) for c in cs if c in p.funcs)
         return False
     sites = relation_write_sites(p)
@@ -491,7 +593,7 @@ class KeepModel(GraphModel):
             return None
         while term[:2] == ('unop', 'not'):
             term, val = term[2], not val
-        if term == T.mk(('attr', T.SELF, 'jobs')) and fr.depth == 0:
+        if term == T.mk(('attr', T.SELF, 'jobs')):
             # remembered beyond the join of the `if` (path facts are not)
             st = st.set(was_empty=not val)
         return st
@@ -723,8 +825,13 @@ def no_live_iteration_while_removing(ctx, rep, rule, attr='required'):
                     and isinstance(n.targets[0], ast.Name) and n.targets[0].id == e.id]
             others = [n for n in walk_local(f.node) if isinstance(n, (ast.For, ast.AugAssign, ast.comprehension, ast.NamedExpr, ast.withitem))
                       and any(isinstance(t, ast.Name) and t.id == e.id and isinstance(t.ctx, ast.Store) for t in ast.walk(n))]
-            if len(defs) == 1 and not others and e.id not in f.params and depth < 4:
-                return classify(f, loopnode, defs[0].value, depth + 1)
+            if defs and not others and e.id not in f.params and depth < 4:
+                # (bound on several branches: any of the bindings may be the one that reaches the loop)
+                for d_ in defs:
+                    why = classify(f, loopnode, d_.value, depth + 1)
+                    if why:
+                        return why
+                return None
             if e.id in f.params and not defs and not others and f.name.startswith('_') \
                     and not f.name.startswith('__') and depth < 4:
                 # the parameter of a private helper: what its callers hand over
